@@ -253,6 +253,7 @@ func (h *hcache) plan(ops []string) []pop {
 //	B:p        set memory_budget_percent
 //	T          advance the clock by one cleanup interval
 //	A:ms       advance the clock by ms
+//	C          cancel the cache's context
 //	X          Destroy
 //	Q          wait until every daemon is parked
 func (h *hcache) do(thread int, pop pop) opRec {
@@ -348,6 +349,8 @@ func (h *hcache) do(thread int, pop pop) opRec {
 		vtime.Advance(h.interval)
 	case "A":
 		vtime.Advance(time.Duration(atoi(f[1])) * time.Millisecond)
+	case "C":
+		h.cancel() // the cache's context is cancelled (shutdown begins): the janitor goroutine exits
 	case "X":
 		h.c.Destroy()
 	case "Q":
